@@ -16,7 +16,7 @@ import (
 
 func init() {
 	register(&Rule{Name: "MD-GATE-OUT", Floor: 3,
-		Doc: "every module function that copies a metadata.MD into an http.Header skips reserved keys (header write unreachable when the reserved test is true) and passes '-bin' values through encodeBinHeader",
+		Doc: "every module function that copies a metadata.MD into an http.Header skips reserved keys (header write unreachable when the reserved test is true) and passes '-bin' values through encodeBinHeader; the reserved test sees the key in the case the reserved table is written in",
 		Run: ruleMDGateOut})
 	register(&Rule{Name: "MD-GATE-IN", Floor: 4,
 		Doc: "every module function that builds a metadata.MD from an http.Header lower-cases keys, applies the reserved filter, base64-decodes '-bin' values and keeps all values of a key",
